@@ -1,6 +1,6 @@
 (* Props/C12.v -- property C12: UAS INVITE: one final response under any CANCEL/BYE/accept race; 2xx until ACK *)
 From Coq Require Import List NArith Bool.
-From EZK Require Import Model.Forms8 Proofs.Forms8 Gen.Tables Model.C04 Proofs.C04 Model.C12o Proofs.C12o Model.Tsx Model.C12 Proofs.C12.
+From EZK Require Import Model.Forms9 Proofs.Forms9 Model.Forms8 Proofs.Forms8 Gen.Tables Model.C04 Proofs.C04 Model.C12o Proofs.C12o Model.Tsx Model.C12 Proofs.C12.
 Import ListNotations.
 Open Scope N_scope.
 
@@ -108,3 +108,17 @@ Proof. exact acks_here. Qed.
 
 Theorem C12_stray_ack_takes_refuted : forall a c, c <> a -> acks_form false (Some a) [c; a] = (None, [false; false]).
 Proof. exact stray_ack_loses_slot. Qed.
+
+(* the 2xx is the application's to retransmit on EVERY transport (RFC 3261 13.3.1.4): each firing of the retransmission timer puts a copy
+   on the wire also over TCP / TLS; skipped there, a lost first copy (or a lost ACK) ends the call at 64*T1 *)
+Theorem C12_retransmit_guard : accepted_retransmit_any_transport = true.
+Proof. reflexivity. Qed.
+
+Theorem C12_2xx_retransmitted_on_every_transport : accepted_retransmit_any_transport = true -> forall reliable, retransmit_sends reliable = true.
+Proof. exact retransmit_here. Qed.
+
+Theorem C12_2xx_copies : forall reliable fired, copies_2xx_form true reliable fired = (1 + fired)%nat.
+Proof. exact copies_any_transport. Qed.
+
+Theorem C12_retransmit_skipped_on_reliable_refuted : forall fired, copies_2xx_form false true fired = 1%nat.
+Proof. exact copies_reliable_skipped. Qed.
